@@ -1,4 +1,5 @@
 import AsynqModel.Proofs.Batching3
+import AsynqModel.Proofs.Batching10
 /-! helper lemmas for C11, part 4: from a good snapshot through `_compute` / `cancel` back to a good snapshot -/
 namespace AsynqModel.Batching
 set_option linter.unusedSimpArgs false
@@ -237,11 +238,34 @@ def BodyPart (k : Kind) (a b0 : Nat) (o : Outc) (e0 : List Ev) : Prop :=
   | .user => ∃ e1 r, e0 = .body b0 a :: (e1 ++ [.bodyEnd b0 r none]) ∧ (∀ ev ∈ e1, ev.isPlain = true) ∧ o = bodyOutc r
   | .debug => (∀ ev ∈ e0, ev.isPlain = true) ∧ (o = .val 0 ∨ o = .err .already)
 
+theorem debug_cause_aux {s : St} {b0 : Nat} (hM : Mid s b0 (switch s b0).active (switch s b0))
+    (hkd : (switch s b0).kind = .debug)
+    (ho : bodyOutc (debugFlush ((switch s b0).bitems b0) (switch s b0)).2.2 = .err .already) :
+    alreadyCause s b0 (debugFlush ((switch s b0).bitems b0) (switch s b0)).2.1 = true := by
+  have hr : (debugFlush ((switch s b0).bitems b0) (switch s b0)).2.2 = some .already := by
+    cases hx : (debugFlush ((switch s b0).bitems b0) (switch s b0)).2.2 with
+    | none => rw [hx] at ho; simp [bodyOutc] at ho
+    | some z => rw [hx] at ho; simp only [bodyOutc, Outc.err.injEq] at ho; rw [ho]
+  have hc := debugFlush_cause ((switch s b0).bitems b0) (switch s b0) hM hkd (fun _ h => h) hr
+  unfold alreadyCause
+  rcases hc with ⟨i, hi, hs⟩ | hany | hd
+  · have : (s.bitems b0).any (fun i => (s.iout i).isSome) = true := by
+      rw [List.any_eq_true]; exact ⟨i, by rw [← hM.bi0]; exact hi, by rw [switch_iout] at hs; exact hs⟩
+    simp [this]
+  · simp [hany]
+  · rw [hM.bi0] at hd; simp [hd]
+
+/-- two more facts about the body's part of the log: a scripted body logs no completion by the library before it
+    ends; a DebugBatch body that raises FutureIsAlreadyComputed has a cause -/
+def BodyExtra (s : St) (b0 : Nat) (o : Outc) (e0 : List Ev) : Prop :=
+  (s.kind = .user → ∀ rest, libBeforeEnd (e0 ++ rest) = false) ∧
+  (s.kind = .debug → o = .err .already → alreadyCause s b0 e0 = true)
+
 /-- `_compute` of a pending batch of a good snapshot -/
 theorem compute_fin (scripts : List Script) {s : St} {b0 : Nat} (hg : Good s) (hb : b0 < s.batches.length)
     (hp : s.bout b0 = none) :
     ∃ o e0, Fin s b0 o (if s.kind = .user then 1 else 0) e0 (compute scripts s b0) ∧
-      BodyPart s.kind (switch s b0).active b0 o e0 := by
+      BodyPart s.kind (switch s b0).active b0 o e0 ∧ BodyExtra s b0 o e0 := by
   have hM := mid_start hg hb hp
   have hp' : (switch s b0).bout b0 = none := by
     unfold switch; split
@@ -288,7 +312,13 @@ theorem compute_fin (scripts : List Script) {s : St} {b0 : Nat} (hg : Good s) (h
         · subst hev; trivial)
       hl3
     rw [st.next.ru, hr1] at f
-    exact ⟨_, _, by simpa using f, _, _, rfl, st.plain, rfl⟩
+    refine ⟨_, _, by simpa using f, ⟨_, _, rfl, st.plain, rfl⟩, ?_⟩
+    unfold BodyExtra
+    refine ⟨?_, fun hd => by rw [hk] at hd; cases hd⟩
+    intro _ rest
+    have := libBeforeEnd_of_noLib _ (runScript_noLib b0 (scripts.getD b0 []) ((switch s b0).incRuns b0)) st.plain b0
+      (runScript b0 (scripts.getD b0 []) ((switch s b0).incRuns b0)).2.2 none rest
+    simpa [libBeforeEnd, Ev.isBodyEnd, Ev.isLib] using this
   | debug =>
     simp only
     have hkd : (switch s b0).kind = .debug := by rw [hkind]; exact hk
@@ -309,7 +339,11 @@ theorem compute_fin (scripts : List Script) {s : St} {b0 : Nat} (hg : Good s) (h
           exact hall hr i hi)
       st.evs (by simpa using hlsw.append st.law hM.ext st.next.ext)
     rw [st.next.ru, hr0] at f
-    refine ⟨_, _, by simpa using f, st.plain, ?_⟩
-    rcases debugFlush_res ((switch s b0).bitems b0) (switch s b0) with h | h <;> simp [h, bodyOutc]
+    refine ⟨_, _, by simpa using f, ⟨st.plain, ?_⟩, ?_⟩
+    rotate_left
+    · unfold BodyExtra
+      refine ⟨fun hu => (by rw [hk] at hu; cases hu), fun _ ho => ?_⟩
+      exact debug_cause_aux hM hkd ho
+    · rcases debugFlush_res ((switch s b0).bitems b0) (switch s b0) with h | h <;> simp [h, bodyOutc]
 
 end AsynqModel.Batching
